@@ -102,6 +102,14 @@ def is_pure_accessor(path, j, raw, _depth=0):
 def inline_helpers(raw, max_rounds=6):
     helpers = {p for p, j in raw.items() if is_helper(p, j)}
     import re
+    # a method of a type with lifetime parameters is stored as `Type::<'a>::method`, a call to it resolves to `Type::<'_>::method` / `Type::<'a>::method`:
+    # look callees up by their path without generic arguments
+    _sg = globals()["_strip_generics"]
+    _bare = {}
+    for p_ in raw: _bare.setdefault(_sg(p_), p_)
+    def _strip_generics(x):
+        y = _sg(x)
+        return y if y in raw else _bare.get(y, y)
     # pure accessors no rule names, plus the connection-status predicates (rules reason about the status enum itself, see rules/C12.py)
     STATUS = ("RenetClient::is_disconnected", "RenetClient::is_connected", "RenetClient::is_connecting", "RenetClient::disconnect_reason",
               "SendChannelReliable::can_send_message", "SendChannelUnreliable::can_send_message",   # + the channels' budget predicate
